@@ -953,6 +953,26 @@ def run(chk):
     gotr = tb.get("Region", [])
     tr_clause("updateValue:Region", uv, len(gotr) == 1 and gotr[0].startswith("%s.update_region_var(" % stp_) and gotr[0].endswith(", %s.keyword, %s.number, %s)" % (np_, np_, vp_)) and "%s.fip_region" % np_ in gotr[0], gotr, "st.update_region_var(<region set of the node>, node.keyword, node.number, value)")
 
+    # ---- C09.step: what is evaluated for a step is read from the schedule at that step
+    r_sp = chk.rule("C09.step", "Summary.cpp: a function that evaluates a report step - it receives the step as a parameter and reads the Schedule at it (schedule[step], getWell(name, step), hasWell(name, step)) - takes every well and group from that step: none of its statements (lambdas included) asks the Schedule for its end-of-run objects (getWellatEnd, getWellsatEnd, back()); the group walk turns a well name into the Well of the step's state", floor=5)
+    for f in sm.fns:
+        if not f.get("body") or not f["file"].endswith("Summary.cpp"):
+            continue
+        steps = {p_["n"] for p_ in f["params"] if p_.get("n") and re.search(r"\b(int|size_t|unsigned|long)\b", p_.get("t") or "") and "&" not in (p_.get("t") or "")}
+        sched = {p_["n"] for p_ in f["params"] if "Schedule" in (p_.get("t") or "") and "ScheduleState" not in (p_.get("t") or "")}
+        if not steps or not sched:
+            continue
+        at_step = [n for n in walk(f["body"]) if ((n["k"] in ("Idx", "OpCall") and show(strip((n.get("c") or n.get("a") or [{}])[0])) in sched and strip((n.get("c") or n.get("a"))[1]).get("n") in steps)
+                                                   or (n["k"] == "MCall" and show(strip(n.get("obj") or {})) in sched and any(strip(a_).get("n") in steps for a_ in n.get("a") or [])))]
+        if not at_step:
+            continue
+        ends = [n for n in walk(f["body"]) if (n["k"] == "MCall" and show(strip(n.get("obj") or {})) in sched and n.get("m") in ("getWellatEnd", "getWellsatEnd", "back", "getGroupatEnd"))
+                or (n["k"] in ("Call", "MCall") and (n.get("m") or (n.get("fn") or "").split("::")[-1]) in ("getWellatEnd", "getWellsatEnd", "getGroupatEnd"))]
+        ends = list({id(n): n for n in ends}.values())
+        chk.instance(r_sp, f["q"] + "@%d" % f["l"], sample=dict(function=f["q"], reads_at_step=len(at_step), end_of_run_reads=[show(n)[:60] for n in ends]))
+        for n in ends:
+            chk.violation(r_sp, "%s:%s" % (f["q"], n.get("m")), "%s evaluates step `%s` but reads `%s`: the object of the LAST report step - its efficiency factor, observed rates, status - enters the vectors of an earlier step, so group values no longer equal the sum over their wells at that time" % (f["q"], sorted(steps)[0], show(n)[:80]), f["file"], n["l"])
+
     # ---- C09.phase: the history rates a well reports per phase
     r_ph = chk.rule("C09.phase", "Well::injection_rate / Well::production_rate (the observed rates behind the ...H history vectors): a query for phase P on an injector answers 0 unless the injector's type is the type of the same name (WATER/WATER, OIL/OIL, GAS/GAS), for each of the three phases; production_rate returns the control's water_rate / oil_rate / gas_rate for WATER / OIL / GAS; an undefined value reads as 0", floor=6)
     wx = chk.facts(["opm/input/eclipse/Schedule/Well/Well.cpp"])
